@@ -277,6 +277,19 @@ func TrySend[T any](ch chan<- T, v T) bool {
 	return false
 }
 
+// SendTo is the curried form the rewriter emits: `ch <- v` becomes
+// verifsim.SendTo(ch)(v), so that v is converted to the element type by
+// ordinary assignability (type inference would otherwise reject an
+// interface-typed channel with a concrete value).
+func SendTo[T any](ch chan<- T) func(T) {
+	return func(v T) { Send(ch, v) }
+}
+
+// TrySendTo is the curried form of TrySend.
+func TrySendTo[T any](ch chan<- T) func(T) bool {
+	return func(v T) bool { return TrySend(ch, v) }
+}
+
 // Recv replaces `<-ch` and `v := <-ch`.
 func Recv[T any](ch <-chan T) T {
 	v, _ := Recv2(ch)
@@ -520,7 +533,7 @@ func (s *Sim) preWGWait(p unsafe.Pointer) bool {
 // MapKeys returns the keys of m. Under simulation they are sorted by the
 // canonical key and then permuted by a value drawn from the tape, so that
 // iteration order is a function of the tape and not of the runtime.
-func MapKeys[K comparable, V any](m map[K]V, key func(K) string) []K {
+func MapKeys[K comparable, V any](m map[K]V) []K {
 	keys := make([]K, 0, len(m))
 	for k := range m {
 		keys = append(keys, k)
@@ -531,7 +544,7 @@ func MapKeys[K comparable, V any](m map[K]V, key func(K) string) []K {
 	}
 	strs := make([]string, len(keys))
 	for i, k := range keys {
-		strs[i] = key(k)
+		strs[i] = KeyOf(k)
 	}
 	idx := make([]int, len(keys))
 	for i := range idx {
